@@ -298,6 +298,106 @@ pub fn run_get(f: &[&str]) -> String {
     }
 }
 
+/// `heq <nodekind> <mode> <textA> <textB>`: every node (at any depth, keys included) of the first document
+/// of A against every node of the first document of B: equal ⇒ equal hash stream; and every mapping of A
+/// asked for every key of B: found by `get`/`contains_key` exactly when some key compares equal.
+pub fn run_heq(f: &[&str]) -> String {
+    if f.len() < 4 {
+        return "bad-op".into();
+    }
+    let (nk, mode, ta, tb) = (f[0], f[1], unhex(f[2]), unhex(f[3]));
+    let lazy = mode == "l";
+    macro_rules! go {
+        ($t:ty, $nodes:ident, $x:ident => $asmap:expr) => {{
+            macro_rules! load1 {
+                ($text:expr) => {{
+                    let r = if lazy {
+                        let mut parser = saphyr_parser::Parser::new_from_str($text);
+                        let mut loader = saphyr::YamlLoader::<$t>::default();
+                        loader.early_parse(false);
+                        parser.load(&mut loader, true).map(|_| loader.into_documents())
+                    } else {
+                        <$t>::load_from_str($text)
+                    };
+                    match r {
+                        Ok(mut d) if !d.is_empty() => d.remove(0),
+                        _ => return "LOADERR".into(),
+                    }
+                }};
+            }
+            let a = load1!(&ta);
+            let b = load1!(&tb);
+            let mut na: Vec<&$t> = vec![];
+            let mut nb: Vec<&$t> = vec![];
+            $nodes(&a, &mut na);
+            $nodes(&b, &mut nb);
+            let mut eqs = 0usize;
+            for x in &na {
+                for y in &nb {
+                    if x == y {
+                        eqs += 1;
+                        if hstream(*x) != hstream(*y) {
+                            return format!("EQHASHMISMATCH {} {}", x.dump().replace(' ', ";"), y.dump().replace(' ', ";"));
+                        }
+                    }
+                }
+            }
+            for xx in &na {
+                let $x = *xx;
+                let x = xx;
+                if let Some(m) = $asmap {
+                    for y in &nb {
+                        let want = m.keys().any(|k| k == *y);
+                        if m.get(*y).is_some() != want || m.contains_key(*y) != want {
+                            return format!("LOOKUPMISMATCH {} {}", x.dump().replace(' ', ";"), y.dump().replace(' ', ";"));
+                        }
+                    }
+                }
+            }
+            format!("ok {eqs}")
+        }};
+    }
+    fn nodes_y<'a, 'b>(n: &'b Yaml<'a>, out: &mut Vec<&'b Yaml<'a>>) {
+        out.push(n);
+        match n {
+            Yaml::Sequence(v) => v.iter().for_each(|x| nodes_y(x, out)),
+            Yaml::Mapping(m) => m.iter().for_each(|(k, v)| {
+                nodes_y(k, out);
+                nodes_y(v, out)
+            }),
+            _ => {}
+        }
+    }
+    fn nodes_yo<'b>(n: &'b YamlOwned, out: &mut Vec<&'b YamlOwned>) {
+        out.push(n);
+        match n {
+            YamlOwned::Sequence(v) => v.iter().for_each(|x| nodes_yo(x, out)),
+            YamlOwned::Mapping(m) => m.iter().for_each(|(k, v)| {
+                nodes_yo(k, out);
+                nodes_yo(v, out)
+            }),
+            _ => {}
+        }
+    }
+    fn nodes_m<'a, 'b>(n: &'b MarkedYaml<'a>, out: &mut Vec<&'b MarkedYaml<'a>>) {
+        out.push(n);
+        match &n.data {
+            YamlData::Sequence(v) => v.iter().for_each(|x| nodes_m(x, out)),
+            YamlData::Mapping(m) => m.iter().for_each(|(k, v)| {
+                nodes_m(k, out);
+                nodes_m(v, out)
+            }),
+            _ => {}
+        }
+    }
+    match nk {
+        "y" => go!(Yaml, nodes_y, n => n.as_mapping()),
+        "yo" => go!(YamlOwned, nodes_yo, n => n.as_mapping()),
+        "m" => go!(MarkedYaml, nodes_m, n => n.data.as_mapping()),
+        _ => "bad-kind".into(),
+    }
+}
+
 /// For every pair of keys of a mapping: equal ⇒ equal hash stream; and borrowed vs owned copies of
 /// each key hash identically.
 fn key_consistency(d: &Yaml) -> String {
@@ -351,10 +451,15 @@ fn deep_text(shape: &str, depth: usize) -> String {
         let mut it = rest.split(':');
         let unit = crate::unhex(it.next().unwrap_or(""));
         let tail = crate::unhex(it.next().unwrap_or(""));
+        let closer = crate::unhex(it.next().unwrap_or(""));
         for _ in 0..depth {
             s.push_str(&unit);
         }
         s.push_str(&tail);
+        // optional third field: a closer repeated once per level (flow collections)
+        for _ in 0..depth {
+            s.push_str(&closer);
+        }
         return s;
     }
     match shape {
@@ -392,7 +497,7 @@ fn deep_text(shape: &str, depth: usize) -> String {
         }
         "fmap" => {
             for _ in 0..depth {
-                s.push_str("{a:");
+                s.push_str("{a: ");
             }
             s.push('b');
             for _ in 0..depth {
